@@ -123,11 +123,14 @@ theorem C10_full : C10_statement :=
 
 A tiny pool and compile oracle: program 0 = `def g(a: Qint[2]) -> bool` (2+1 qubits + ancilla),
 program 1 = `def oracle(...)`, program 2 = `def copy(a: bool) -> bool`, program 3 = `def h(a) =
-g(a)` (needs `defs=[g]`), program 4 = `def f(a: bool) -> bool`, program 5 = another `def g`. -/
+g(a)` (needs `defs=[g]`), program 4 = `def f(a: bool) -> bool`, program 5 = another `def g`,
+program 6 = `def pk(a, k: Parameter[Qint[2]]) = g(a + k)` (unbound, needs `defs=[g]`), program 7 =
+`def Qint(a: bool) -> bool`, program 8 = `def pc(a: Qint[2], p: Parameter[bool]) = Qint(a[0]) ^ p`. -/
 
 def wPool : Pool :=
   [{ name := "g" }, { name := "oracle" }, { name := "copy" }, { name := "h", callees := ["g"] }, { name := "f" },
-   { name := "g" }]
+   { name := "g" }, { name := "pk", callees := ["g"], params := true }, { name := "Qint" },
+   { name := "pc", callees := ["Qint"], annots := ["Qint"], params := true }]
 
 def wCirc : Circ :=
   { cname := "g", nq := 4, gates := [{ name := "MCX|CCX", wires := [0, 1, 3] }],
@@ -144,6 +147,9 @@ def wK : Oracle := fun key =>
   else if key == "P5" then some (some (wCompiled "s5"))
   else if key == "P3|g#s0" then some (some (wCompiled "s3"))
   else if key == "O_oracle|2|_oracle#s1" then some (some (wCompiled "so"))
+  else if key == "P7" then some (some (wCompiled "s7"))
+  else if key == "B6|k=1|g#s0" then some (some (wCompiled "b1"))
+  else if key == "B6|k=2|g#s0" then some (some (wCompiled "b2"))
   else none
 
 def nqOf : Fp → Nat
@@ -162,6 +168,15 @@ def isNotCallable : Fp → Bool
 def calleeOf : Fp → Option Src
   | .qf { orig := .node _ (.node s _ :: _), .. } => some s
   | _ => none
+
+/-- the first callee of `original_f` is a free name that nothing provides -/
+def calleeMissing : Fp → Bool
+  | .qf { orig := .node _ (.missing _ :: _), .. } => true
+  | _ => false
+
+def sigOf : Fp → String
+  | .qf f => f.info.sig
+  | _ => ""
 
 /-- `Grover(g)` changes `g`: its circuit has one more qubit afterwards (and yet another one after a
 second `Grover(g)`) – the frame property fails for the model of the code as it is -/
@@ -210,6 +225,36 @@ theorem eval_sees_locals_witness :
       isNotCallable (fingerprint Quirks.none P (run Quirks.none P wK ApiState.init [.compile 0 [] false]) 0) = false := by
   decide
 
+/-- `qlassf(pk, defs=[g]).bind(k=1).original_f` calls a `g` that nothing provides (the bound source
+is run in the module globals only), while in the repaired model it calls the `g` that was passed;
+what is translated (the signature) is the same in both -/
+theorem bind_orig_without_defs_witness :
+    let q := Quirks.ofList ["bindOrigWithoutDefs"]
+    let ops : List Op := [.compile 0 [] false, .compile 6 [0] false, .bind 1 "k=1"]
+    calleeMissing (fingerprint q wPool (run q wPool wK ApiState.init ops) 2) = true ∧
+    calleeOf (fingerprint Quirks.none wPool (run Quirks.none wPool wK ApiState.init ops) 2) = some (.pool 0) ∧
+    sigOf (fingerprint q wPool (run q wPool wK ApiState.init ops) 2) = "b1" := by
+  decide
+
+/-- `qlassf(pc, defs=[Qint])` where `pc`'s annotations mention the type `Qint` and the definition is a
+user function called `Qint`: the call raises (the annotation finds the function), in the repaired
+model it returns the unbound function -/
+theorem def_shadows_annotation_witness :
+    let q := Quirks.ofList ["defShadowsAnnotation"]
+    (step q wPool wK (run q wPool wK ApiState.init [.compile 7 [] false]) (.compile 8 [0] false)).2 = .raised ∧
+    (step Quirks.none wPool wK (run Quirks.none wPool wK ApiState.init [.compile 7 [] false]) (.compile 8 [0] false)).2 = .ok := by
+  decide
+
+/-- binding the same unbound object again with other values, with anything in between, gives what
+the second binding gives on its own (instance of `history_free` + `frame_run` on a concrete
+history; the general statement is `C10_full`) -/
+example :
+    let ops₁ : List Op := [.compile 0 [] false, .compile 6 [0] false, .bind 1 "k=1", .grover 2 none 1, .bind 1 "k=2"]
+    let ops₂ : List Op := [.compile 0 [] false, .compile 6 [0] false, .bind 1 "k=2"]
+    sigOf (fingerprint Quirks.none wPool (run Quirks.none wPool wK ApiState.init ops₁) 4) = "b2" ∧
+    sigOf (fingerprint Quirks.none wPool (run Quirks.none wPool wK ApiState.init ops₂) 2) = "b2" := by
+  decide
+
 /-- hence the full property fails for the model of the code as it is -/
 theorem C10_fails_with_grover_quirk : ¬ C10_statement_for (Quirks.ofList ["groverMutatesOracle"]) := by
   intro h
@@ -223,20 +268,23 @@ theorem C10_fails_with_grover_quirk : ¬ C10_statement_for (Quirks.ofList ["grov
 
 /-- does the operation run into one of the listed defects in state `s`? -/
 def triggers (q : Quirks) (s : ApiState) (op : Op) : Bool :=
-  (q.execIntoModuleGlobals || q.evalSeesLocals) || opTrigger q s op
+  (q.execIntoModuleGlobals || q.evalSeesLocals || q.defShadowsAnnotation) || opTrigger q s op
 
-/-- **C10_partial** (stored objects only): with the namespace quirks off, an operation that is not
-`Grover(...)` (when `groverMutatesOracle` is on) and not `oraclize`/`Grover(qf, x)` on a function
-called `oracle` (when `oraclizeRenames` is on) behaves exactly as in the repaired model: same state,
+/-- **C10_partial** (stored objects only): with the namespace quirks (`execIntoModuleGlobals`, `evalSeesLocals`,
+`defShadowsAnnotation`) off, an operation that is not
+`Grover(...)` (when `groverMutatesOracle` is on), not `oraclize`/`Grover(qf, x)` on a function
+called `oracle` (when `oraclizeRenames` is on) and not `bind` (when `bindOrigWithoutDefs` is on)
+behaves exactly as in the repaired model: same state,
 same outcome.  What is
 missing for the model of the code as it is: the histories in which `exec(src, globals())` is active
 (then fingerprints depend on the shared namespace; covered by the witnesses above and by the
 correspondence run, not by a theorem). -/
 theorem C10_partial (q : Quirks) (P : Pool) (K : Oracle) (s : ApiState) (op : Op)
     (hq : q.execIntoModuleGlobals = false) (he : q.evalSeesLocals = false)
+    (hd : q.defShadowsAnnotation = false)
     (ht : triggers q s op = false) :
     stepCore q P K s op = stepCore Quirks.none P K s op := by
-  exact stepCore_eq_none_of_no_trigger q P K s op hq he (by simpa [triggers, hq, he] using ht)
+  exact stepCore_eq_none_of_no_trigger q P K s op hq he hd (by simpa [triggers, hq, he, hd] using ht)
 
 example : triggers (Quirks.ofList ["groverMutatesOracle", "oraclizeRenames"])
     (run Quirks.none wPool wK ApiState.init [.compile 0 [] false]) (.oraclize 0 "2") = false := by decide
